@@ -606,6 +606,47 @@ def filter_rule(ctx: Ctx, rid: str, require_equivalence_everywhere: bool = False
 
 
 # ------------------------------------------------------------------------------------------- validate
+def _init_model(ctx: Ctx, c, init: FunctionInfo) -> tuple[Optional[bool], str]:
+    """interpret <Decider>.__init__(..., max_depth=7) (constructors of base classes inlined): on every path self.max_depth
+    ends up being the requested limit and validate() is called after it was stored"""
+    from ..modelinterp import Budget, Effect, Interp, Sym, UNKNOWN, _NONE
+    state = {"validated_with": []}
+
+    def call_model(it, call, env, args, kwargs):
+        if call_name(call) == "validate" and is_self_attr(call.func):
+            state["validated_with"].append(env.get("self.max_depth", "unset"))
+            return _NONE
+        return None
+
+    it = Interp(ctx.prog, c, lambda *_: None, call_model, max_depth=5, max_traces=16)
+    it.on_start = lambda: state.__setitem__("validated_with", [])
+    a = init.node.args
+    names = [x.arg for x in a.posonlyargs + a.args + a.kwonlyargs][1:]
+    if "max_depth" not in names:
+        return None, "the constructor has no max_depth parameter"
+    env = {"self": Sym("self")}
+    for p_ in names:
+        env[p_] = 7 if p_ == "max_depth" else Sym(p_)
+    try:
+        runs = it.run(init, env)
+    except Budget:
+        return None, "too many interpretations"
+    for (trace, rv, notes), env_after in zip(runs, it.envs):
+        if any(e.kind == "raise" for e in trace):
+            continue
+        got = env_after.get("self.max_depth", "unset")
+        if got == "unset" or got is UNKNOWN:
+            return (None if got is UNKNOWN else False), "the constructor does not store the requested limit in self.max_depth"
+        if got != 7:
+            return False, (f"constructed with max_depth=7 the decider works with max_depth={got!r}: the requested limit is not the one that is "
+                           f"validated and enforced (an argument is not forwarded to the base constructor)")
+        if not state["validated_with"]:
+            return False, "the depth limit is not validated at construction: an infeasible limit fails midway through creation instead"
+        if state["validated_with"][-1] != 7:
+            return False, f"validate() runs while self.max_depth is {state['validated_with'][-1]!r}, not the requested limit"
+    return True, ""
+
+
 def validate_rule(ctx: Ctx, rid: str) -> None:
     """Every decider class that takes a depth limit (validate found through the hierarchy, mixins included): __init__ calls
     validate unconditionally; validate is abstractly interpreted (locals, helper calls): every raising path entails
@@ -622,10 +663,8 @@ def validate_rule(ctx: Ctx, rid: str) -> None:
             continue
         init = prog.lookup_method(c, "__init__")
         n += 1
-        calls = [x for x in walk_local(init.node) if isinstance(x, ast.Call) and call_name(x) == "validate" and is_self_attr(x.func)] if init else []
-        ok = bool(calls) and all(not guards(x, stop=init.node) for x in calls)
-        ctx.ob(rid, init or v, calls[0] if calls else (init.node if init else v.node), f"{c.name}.__init__ validates the limit on every path", ok,
-               "" if ok else "the depth limit is not validated at construction: an infeasible limit fails midway through creation instead")
+        ok, why = _init_model(ctx, c, init) if init is not None else (False, "no constructor")
+        ctx.ob(rid, init or v, init.node if init else v.node, f"{c.name}.__init__ stores the requested limit and validates it on every path", ok, why)
         if v.fullname in done:
             continue
         done.add(v.fullname)
